@@ -129,4 +129,7 @@ func main() {
 	if which == "all" || which == "transport" {
 		transportPart(seed)
 	}
+	if which == "all" || which == "grun" {
+		grunPart(seed)
+	}
 }
